@@ -6,3 +6,4 @@ pub mod c12kit;
 pub mod cfgmodel;
 pub mod h2kit;
 pub mod wctl;
+pub mod xkit;
